@@ -22,7 +22,7 @@ PROPS = {
     "C13": {"profiles": ["struct-flat", "enum", "tree", "trait-params", "unknowns"], "n_quick": 3600, "backends": ["s1", "s2"]},
     "C14": {"profiles": ["repeat", "trait-repeat"], "n_quick": 5400},
     "C15": {"profiles": ["faults", "hostile", "parents", "trait-repeat", "unknowns", "shape-change"], "n_quick": 7200},
-    "C16": {"profiles": ["hostile", "enum-prim", "tree", "faults", "parents", "unknowns", "member-instrs"], "n_quick": 9000},
+    "C16": {"profiles": ["hostile", "enum-prim", "tree", "faults", "parents", "unknowns", "member-instrs", "shape-change"], "n_quick": 9000},
     "C17": {"profiles": ["struct-flat", "enum", "tree", "trait-params", "generics", "shape-change"], "n_quick": 5400},
     "C18": {"profiles": ["hostile", "struct-flat", "enum", "tree", "unknowns"], "n_quick": 5400, "backends": ["s1", "s2"]},
     "C19": {"profiles": ["faults", "hostile", "multi-counterpart", "trait-repeat", "tree"], "n_quick": 4500},
@@ -1411,9 +1411,19 @@ def run_oracle(prop, cases, results, seed, thorough, disagreements):
                 fo, no = oracle_c08_attrs(seed, thorough)
                 out["failures"] += fo
                 out["evaluated"] += no
+                # which instruction a repeated vars / update / return / default case reaches: the written-out form of trait-level repeat
+                out["name"] += " + trait-level repeat vs its written-out form (who receives the repeated parameters)"
+                fo, no = oracle_c14_traits(seed + 8, thorough)
+                out["failures"] += fo
+                out["evaluated"] += no
             if prop == "C09":
                 out["name"] += " + metamorphic: swapping a default with a dedicated #[literal] / #[pattern] leaves the real expansion unchanged"
                 fo, no = oracle_c05_order(seed + 9, thorough, profiles=("enum-prim",))
+                out["failures"] += fo
+                out["evaluated"] += no
+            if prop == "C01":
+                out["name"] += " + metamorphic: an instruction on a later step of a member's lookup (infallible twin of a fallible one; `into` next to an into_existing one) never changes the conversion"
+                fo, no = oracle_c05_shadowed(seed + 1, thorough)
                 out["failures"] += fo
                 out["evaluated"] += no
             if prop == "C03":
@@ -1509,12 +1519,17 @@ def classify_failure(prop, f, known):
     """returns the known finding this failure belongs to, or None"""
     for k in known:
         cls = k.get("class", {})
-        if "panic_site" in cls and f.get("site") == cls["panic_site"]:
+        # a panic-site class may be narrowed to the zone of inputs the finding describes: the same site reached from outside
+        # that zone (e.g. because a validation rule stopped firing) is a new violation
+        zone_ok = ("source_regex" not in cls) or re.search(cls["source_regex"], f.get("source", "")) is not None
+        if "panic_site" in cls and f.get("site") == cls["panic_site"] and zone_ok:
             return k
-        if "panic_site" in cls and str(f.get("site", "")).startswith("message:"):
+        if "panic_site" in cls and str(f.get("site", "")).startswith("message:") and zone_ok:
             tag = f["site"][len("message:"):]
             if cls["panic_site"].endswith(tag) or (tag == "todo" and cls["panic_site"].endswith(":todo")):
                 return k
+        if "panic_site" in cls:
+            continue
         if "source_regex" in cls and re.search(cls["source_regex"], f.get("source", "")) and cls.get("what", "") in f.get("what", ""):
             return k
     return None
